@@ -433,3 +433,23 @@ package catalog
 // the same for JSON-RPC ids is FALSE (method names and paths may contain spaces): known finding F9
 //@ lemma jsonRpcIdInjective : [C09] forall m1 string, m2 string, p1 string, p2 string :: strprefix(p1, "/") && strprefix(p2, "/")
 //@      && ("json-rpc-2.0 " + m1 + " " + p1) == ("json-rpc-2.0 " + m2 + " " + p2) ==> m1 == m2 && p1 == p2
+
+// ---------------------------------------------------------------- automatic tags (C09 mutual references, C19)
+//@ func newPathTag
+//@   tag C19
+//@   trusted
+//@   modifies nothing
+//@   ensures fresh(ret)
+
+// a path tag REUSES the tag already registered under its name (otherwise the interactions attached to the earlier
+// tag would disappear from it); a new one is registered under its own name
+// every registered tag is stored under its own name
+//@ pred TagsNamed(m *Tags) = forall k TagName :: has(m.data, k) ==> m.data[k] != nil && m.data[k].Name == k
+
+//@ func (*Catalog).pathTag
+//@   tag C09 C19 C01
+//@   requires c != nil && RepInvTags(c.Tags) && TagsNamed(c.Tags) && c.Tags.mx == 0 && !isnil(r)
+//@   modifies c.Tags.mx, c.Tags.data, c.Tags.order, mapof(c.Tags.data)
+//@   ensures [C09] ret != nil && has(c.Tags.data, ret.Name) && c.Tags.data[ret.Name] == ret && TagsNamed(c.Tags)
+//@   ensures [C09] forall k TagName :: old(has(c.Tags.data, k)) ==> has(c.Tags.data, k) && c.Tags.data[k] == old(c.Tags.data[k])
+//@   ensures RepInvTags(c.Tags) && c.Tags.mx == 0
